@@ -83,7 +83,9 @@ def sx_int(x=0, *a):
         return x
     if isinstance(x, SymBool):
         return x._int()
-    if isinstance(x, (SymFloat, TStr)):
+    if isinstance(x, SymFloat):
+        return x.__trunc__()
+    if isinstance(x, TStr):
         raise EngineLimit(f"int() of {type(x).__name__}")
     return int(x, *a)
 
